@@ -757,8 +757,8 @@ impl_conversion_mat_to_mat_fxn! {
   i128,"i128"=> [String, "string", f64, "f64", f32, "f32", u8, "u8", u16, "u16", u32, "u32", u64, "u64", u128, "u128", i8, "i8", i16, "i16", i32, "i32", i64, "i64", i128, "i128"];
   bool, "bool" => [bool, "bool", String, "string", f64, "f64", f32, "f32", u8, "u8", u16, "u16", u32, "u32", u64, "u64", u128, "u128", i8, "i8", i16, "i16", i32, "i32", i64, "i64", i128, "i128"];
   String, "string" => [String, "string"];
-  R64, "rational" => [String, "string"];
-  C64, "complex" => [String, "string"];
+  R64, "rational" => [String, "string", R64, "rational"];
+  C64, "complex" => [String, "string", C64, "complex"];
 }
 
 #[cfg(target_arch = "wasm32")]
@@ -775,8 +775,8 @@ impl_conversion_mat_to_mat_fxn! {
   i64, "i64" => [String, "string", f64, "f64", f32, "f32", u8, "u8", u16, "u16", u32, "u32", u64, "u64", i8, "i8", i16, "i16", i32, "i32", i64, "i64"];
   bool, "bool" => [bool, "bool", String, "string", f64, "f64", f32, "f32", u8, "u8", u16, "u16", u32, "u32", u64, "u64", i8, "i8", i16, "i16", i32, "i32", i64, "i64"];
   String, "string" => [String, "string"];
-  R64, "rational" => [String, "string"];
-  C64, "complex" => [String, "string"];
+  R64, "rational" => [String, "string", R64, "rational"];
+  C64, "complex" => [String, "string", C64, "complex"];
 }
 
 pub struct ConvertMatToMat {}
